@@ -317,7 +317,7 @@ def _nodes(t):
     return 1 + sum(_nodes(c) for c in t[-1])
 
 
-CORR_LIMIT = 1600       # |a| * |b| in nodes: the model builds the full matrix of child states at every level
+CORR_LIMIT = 10000       # |a| * |b| in nodes: the model builds the full matrix of child states at every level
 
 
 def corr_wanted(r):
@@ -383,7 +383,7 @@ def gen_items(tier, rng):
         for o in (('auto', 'on'), ('none', 'off'), ('match', 'same')):
             items.append({'a': a, 'b': b, 'opts': list(o), 'mode': 'active'})
     q = tier == 'quick'
-    n_list, n_doc, n_pass, n_kvp, n_search = (300, 180, 120, 50, 25) if q else (2000, 1200, 600, 300, 150)
+    n_list, n_doc, n_pass, n_kvp, n_search = (300, 180, 120, 50, 25) if q else (5000, 3000, 1500, 600, 300)
     for k in range(n_list):            # the modelled fragment: correspondence is decided on these
         r = rng.random()
         if r < 0.35:
